@@ -181,9 +181,15 @@ func runStream(version int, codec protocol.CodecType, capacity, pre int, chunks 
 	rest := data
 	outs := []string{}
 	stop := false
-	for _, n := range chunks {
+	var held []*protocol.Packet
+	for ci, n := range chunks {
 		if stop {
 			break
+		}
+		if ci > 0 {
+			// between two pieces of this connection's stream other users of the codec's shared pools run (another connection's
+			// decoder, an encoder): whatever this connection has parked must not be affected
+			otherPoolUsers(version)
 		}
 		if n > len(rest) {
 			n = len(rest)
@@ -211,6 +217,7 @@ func runStream(version int, codec protocol.CodecType, capacity, pre int, chunks 
 			case done:
 				s = "pkt " + showPacket(pk)
 				sr.packets = append(sr.packets, showPacket(pk))
+				held = append(held, pk)
 				if rb.Length() >= before {
 					sr.text = "NOPROGRESS"
 				}
@@ -230,7 +237,54 @@ func runStream(version int, codec protocol.CodecType, capacity, pre int, chunks 
 		sr.text = strings.Join(outs, " ")
 	}
 	sr.left = rb.Length()
+	// the packets handed out stay what they were when the buffer they were decoded from is reused for later input: cycle the write
+	// position through the whole ring (without growing it), then look at the packets again
+	if !sr.panic && len(held) > 0 {
+		guard(func() string {
+			for round := 0; round < 3; round++ {
+				if free := rb.Capacity() - rb.Length(); free > 0 {
+					rb.Write(bytes.Repeat([]byte{0xA5}, free))
+					rb.Retrieve(free)
+				}
+			}
+			return "ok"
+		})
+		for i, pk := range held {
+			if now := showPacket(pk); now != sr.packets[i] {
+				streamUnstable = append(streamUnstable, fmt.Sprintf("v%d cap=%d pre=%d chunks=%s: packet %d was %s when it was delivered and is %s after the ring buffer was reused for later input",
+					version, capacity, pre, chunkList(chunks), i, sr.packets[i][:min(160, len(sr.packets[i]))], now[:min(160, len(now))]))
+				break
+			}
+		}
+	}
 	return sr
+}
+
+// streamUnstable collects delivered packets that changed afterwards (aliasing of the decoder's buffers); the generators report them
+var streamUnstable []string
+
+func flushUnstable(e *emitter, class string) {
+	if len(streamUnstable) == 0 {
+		return
+	}
+	idx := e.op("gz.note concurrent retained-packets "+class, "done", "retained", true)
+	e.fail(idx, "delivered_packets_stable", streamUnstable[0])
+	streamUnstable = nil
+}
+
+// otherPoolUsers: one encode and two decodes of unrelated packets on fresh contexts of the same version, on the calling goroutine
+func otherPoolUsers(version int) {
+	defer func() { recover() }()
+	pk := &pkt{version: version, typ: "push", cmd: 77, body: bspec{kind: "rep", b: 'o', n: 9}}
+	if version == 2 {
+		pk.pairs = [][2]item{{item{data: []byte("other")}, item{data: []byte("conn")}}}
+	}
+	f, err := proto(version).Pack(newCtx(version, protocol.CodecProtobuf), pk.build(protocol.CodecProtobuf))
+	if err != nil {
+		return
+	}
+	proto(version).UnpackBytes(newCtx(version, protocol.CodecProtobuf), f)
+	proto(version).Unpack(newCtx(version, protocol.CodecProtobuf), ringbuffer.NewWithData(append([]byte{}, f...)))
 }
 
 func chunkList(chunks []int) string {
@@ -294,6 +348,7 @@ func genValidFrame(rg *rng, version int, small bool) ([]byte, *gzEntry) {
 }
 
 func genC03(e *emitter, tier string, seed uint64) map[string]interface{} {
+	defer flushUnstable(e, "C03")
 	rg := &rng{seed ^ 0x03}
 	thorough := tier == "thorough"
 	// (a) ring buffer operation sequences
